@@ -40,6 +40,10 @@ def rootsObjectsB (s : SchemaD) : Bool :=
 
 def typesWfB (s : SchemaD) : Bool := s.types.all fun t => t.fields.all fun fd => fd.type.wf
 
+/-- only object and interface types carry fields (hypothesis `FieldOwners` of `Props/C05_overlap.lean`) -/
+def fieldOwnersB (s : SchemaD) : Bool :=
+  s.types.all fun t => t.fields.isEmpty || t.kind == .object || t.kind == .interface
+
 def schemaChecksB (s : SchemaD) : Bool :=
   schemaKindsB s && schemaCovB s && rootsObjectsB s && Validate.schemaOutputsB s && Validate.isLeaf s "String" && typesWfB s
 
